@@ -2683,6 +2683,7 @@ class Deb822FileElement(Deb822Element):
         True
         """
 
+        self._check_paragraph_is_free(para)
         anchor_node = None
         needs_newline = True
         if idx == 0:
@@ -2739,11 +2740,8 @@ class Deb822FileElement(Deb822Element):
         >>> deb822_file.dump() == expected
         True
         """
+        self._check_paragraph_is_free(paragraph)
         tail_element = self._token_and_elements.tail
-        if paragraph.parent_element is not None:
-            if paragraph.parent_element is self:
-                raise ValueError("Paragraph is already a part of this file")
-            raise ValueError("Paragraph is already part of another Deb822File")
 
         # We need a separating newline if there not a whitespace token at the end of the file.
         # Note the special case where the file ends on a comment; here we insert a whitespace too
@@ -2763,6 +2761,14 @@ class Deb822FileElement(Deb822Element):
             self._token_and_elements.append(self._set_parent(Deb822WhitespaceToken('\n')))
         self._token_and_elements.append(self._set_parent(paragraph))
         paragraph.parent_element = self
+
+    def _check_paragraph_is_free(self, paragraph):
+        # type: (Deb822ParagraphElement) -> None
+        """A paragraph can be placed in one file only, and there only once"""
+        if paragraph.parent_element is not None:
+            if paragraph.parent_element is self:
+                raise ValueError("Paragraph is already a part of this file")
+            raise ValueError("Paragraph is already part of another Deb822File")
 
     def _set_parent(self, t):
         # type: (TE) -> TE
